@@ -282,3 +282,35 @@ message Tail {
 		"test/zzwide/v1/wide.proto": sb.String(),
 	})
 }
+
+// ---------------------------------------------------------------- filler types
+
+// fillTypes: 1600 small message types (each with an enum of its own) that exist only to make a
+// shared cache LARGE - limits, thresholds and eviction only misbehave beyond some number of entries.
+var fillTypes []protoreflect.MessageType
+
+func registerFillTypes() {
+	str := descriptorpb.FieldDescriptorProto_TYPE_STRING.Enum()
+	en := descriptorpb.FieldDescriptorProto_TYPE_ENUM.Enum()
+	opt := descriptorpb.FieldDescriptorProto_LABEL_OPTIONAL.Enum()
+	fdp := &descriptorpb.FileDescriptorProto{Name: proto.String("test/zzfill/v1/fill.proto"), Syntax: proto.String("proto3"), Package: proto.String("test.zzfill.v1")}
+	for i := 0; i < 1600; i++ {
+		name := fmt.Sprintf("F%04d", i)
+		fdp.MessageType = append(fdp.MessageType, &descriptorpb.DescriptorProto{
+			Name: proto.String(name),
+			Field: []*descriptorpb.FieldDescriptorProto{
+				{Name: proto.String("note"), JsonName: proto.String("note"), Number: proto.Int32(1), Type: str, Label: opt},
+				{Name: proto.String("kind"), JsonName: proto.String("kind"), Number: proto.Int32(2), Type: en, TypeName: proto.String(".test.zzfill.v1." + name + ".Kind"), Label: opt},
+			},
+			EnumType: []*descriptorpb.EnumDescriptorProto{{Name: proto.String("Kind"), Value: []*descriptorpb.EnumValueDescriptorProto{
+				{Name: proto.String("KIND_UNSPECIFIED"), Number: proto.Int32(0)}, {Name: proto.String("KIND_A"), Number: proto.Int32(1)}}}},
+		})
+	}
+	fd, err := protodesc.NewFile(fdp, protoregistry.GlobalFiles)
+	if err != nil {
+		panic(err)
+	}
+	for i := 0; i < fd.Messages().Len(); i++ {
+		fillTypes = append(fillTypes, dynamicpb.NewMessageType(fd.Messages().Get(i)))
+	}
+}
